@@ -10,7 +10,11 @@ import (
 // function, in source order, with nesting depth of enclosing blocks dropped. Expectations about
 // ordering and lock bracketing are checked by the orchestrator against translator/expect.json.
 func extractFact(repo string, f FactSpec) (any, error) {
-	fset, files, err := parseDir(repo, f.Dir, nil)
+	var only []string
+	if f.File != "" {
+		only = []string{f.File}
+	}
+	fset, files, err := parseDir(repo, f.Dir, only)
 	if err != nil {
 		return nil, err
 	}
